@@ -38,7 +38,7 @@ def cases(tier, seed):
         out.append(dict(W=R.randrange(260, 1100), H=R.randrange(260, 1100), n=R.choice([1, 2, 3, 4, 6, 9]), overlap=R.choice([0, 0, 7, 40]),
                         nanborder=R.choice([0, 0, 3]), dtype=R.choice(["F32", "F32", "F32", "I16"]), bu=R.random() < 0.5, par=R.choice([1, 2, 3, 8]),
                         via=R.choice(["api", "api", "cli"]), profile=R.choice(["jitter", "slow_workers", "natural", "stall", "late_check", "slow_feeder"]), seed=R.randrange(1 << 30),
-                        hostile=(i % 3 == 0)))
+                        hostile=(i % 3 == 0), one_file=(i % 5 == 1), mixed_parity=(i % 4 == 2)))
         if out[-1]["hostile"]:
             out[-1].update(par=R.choice([2, 3, 8]), n=R.choice([3, 4, 6, 9]), overlap=R.choice([7, 40]))
             if i % 2 == 0:
@@ -116,12 +116,16 @@ def run_multi_tan(spec, paths, out, par, via, log, profile):
     evlog.open_log(log)
     instr_mp.install(profile if par > 1 else "natural", spec["seed"])
     b = None
-    if via == "cli":
+    hdu_index = None
+    if spec.get("one_file"):
+        # the inputs are the extensions of ONE multi-extension file (the same path listed n times with an HDU list)
+        paths, hdu_index = fitsgen.bundle(paths, os.path.join(os.path.dirname(paths[0]), "bundle-%s.fits" % os.path.basename(out)))
+    if via == "cli" and hdu_index is None:  # (`tile-multi-tan --hdu-index` takes ONE index: a per-file list needs the API)
         fn = lambda: cli.entrypoint(["tile-multi-tan", "--outdir", out, "-j", str(par)] + paths)
     else:
         pio = PyramidIO(out, default_format="fits")
         b = Builder(pio)
-        proc = MultiTanProcessor(SimpleFitsCollection(paths))
+        proc = MultiTanProcessor(SimpleFitsCollection(paths, hdu_index=hdu_index))
         proc.compute_global_pixelization(b)
 
         def fn():
@@ -218,7 +222,9 @@ def run_case(spec, workdir):
             if k in blobs:
                 src = mosaic.copy()
                 src[blobs[k]] = np.nan
-            p = fitsgen.write_piece(os.path.join(d, "piece%02d.fits" % k), src, r, ref, scale=scale, crval=crval, bottoms_up=bu, nan_border=nb, rot=rot)
+            bu_k = bu if not spec.get("mixed_parity") else bool((spec["seed"] >> (k % 16)) & 1)  # per-file row order
+            p = fitsgen.write_piece(os.path.join(d, "piece%02d.fits" % k), src, r, ref, scale=scale, crval=crval, bottoms_up=bu_k, nan_border=nb, rot=rot,
+                                    parity_in_pc=bool(spec.get("mixed_parity")))
             paths.append(p)
             x0, y0, w, h = r
             arr = np.array(src[y0:y0 + h, x0:x0 + w])
